@@ -412,7 +412,8 @@ def reuse_objects():
     import atsim.potentials as ap
     from atsim.potentials import potentialforms as pf
     import math
-    pots = [ap.Potential('A', 'A', pf.morse(1.2, 2.0, 0.3)), ap.Potential('B', 'A', ap.plus(pf.morse(1.8, 2.0, 0.6), pf.polynomial(1.0, -1.0, 0.25))),
+    table = ap.TableReader(io.StringIO(''.join('%r %r\n' % (0.25 * k, 3.0 * math.exp(-0.5 * k) - 0.1 * k) for k in range(40))))      # legacy tabulated input
+    pots = [ap.Potential('A', 'A', table), ap.Potential('B', 'A', ap.plus(pf.morse(1.8, 2.0, 0.6), pf.polynomial(1.0, -1.0, 0.25))),
             ap.Potential('B', 'B', memo(lambda r: 3.0 / (1.0 + r)))]
     dens = {'A': pf.exp_spline(0.7, -0.9, 0.01, 0, 0, 0, 0), 'B': pf.exp_spline(0.9, -1.0, 0.02, 0, 0, 0, 0.05)}
     dfs = {'A': {'A': dens['A'], 'B': pf.exp_spline(0.2, -1.1, 0.02, 0, 0, 0, 0)}, 'B': {'A': pf.exp_spline(0.3, -1.1, 0.02, 0, 0, 0, 0), 'B': dens['B']}}
